@@ -182,3 +182,8 @@ Proof.
   - eapply futures_kept; eauto.
   - intros id Hg. eapply attach_step; eauto.
 Qed.
+
+(* while a supervisor exists (so a client may exist and run its cleanup), the shared store is protected:
+   a connection loss cannot cancel the futures kept in it *)
+Theorem store_protected c es s : run step (init c) es = Some s -> sp s <> SIdle -> protected s = true.
+Proof. intros R. apply run_reach in R. destruct (inv_all_reach c s R) as [C _ _ _]. exact (ic_prot s C). Qed.
